@@ -168,8 +168,12 @@ pub fn source_name_b(rng: &mut Rng, i: usize, dotted: bool, blanks: bool) -> Str
     let stem = if dotted && rng.chance(1, 5) {
         format!("f{i}.v{}", rng.below(3))
     } else if blanks && rng.chance(1, 12) {
-        // a blank in the name (commands quote the names they mention)
-        format!("f{i} b")
+        // a blank or a comma in the name (commands quote the names they mention)
+        if rng.chance(1, 2) {
+            format!("f{i} b")
+        } else {
+            format!("f{i},c")
+        }
     } else {
         format!("f{i}")
     };
@@ -351,6 +355,10 @@ pub fn gen_graph_project(rng: &mut Rng, o: &GraphOpts, n: usize, edges: &BTreeSe
             }
         }
         b.push(format!("file {i} begins"));
+        if rng.chance(1, 4) {
+            // U+FFFD in the output: what a lossy decoding of almost anything also gives
+            b.push("replacement \u{fffd} character".into());
+        }
         // dependency-free part
         let pre = rng.below(4);
         for _ in 0..pre {
@@ -379,6 +387,12 @@ pub fn gen_graph_project(rng: &mut Rng, o: &GraphOpts, n: usize, edges: &BTreeSe
             let kw = if rng.chance(1, 3) { "after" } else { "include" };
             let ws = if kw == "include" { *rng.pick(&WSS) } else { "" };
             let pf = if rng.chance(1, 3) { *rng.pick(&PREFIXES) } else { "" };
+            if k >= 1 && !pf.is_empty() && rng.chance(1, 4) {
+                // a multi-line-capable directive with the same indentation and prefix further up,
+                // separated from the dependency line by ordinary text only
+                b.push(format!("{ws}{pf}TXTPP#run printf 'before a later dependency\\n'"));
+                b.push("text between the command and the dependency line".into());
+            }
             b.push(format!("{ws}{pf}TXTPP#{kw} {x}"));
             dep_lines.push((i, format!("{ws}{pf}TXTPP#{kw} {x}"), *dj));
             if o.probes && rng.chance(1, 2) {
@@ -448,6 +462,65 @@ pub fn gen_graph_project(rng: &mut Rng, o: &GraphOpts, n: usize, edges: &BTreeSe
                     let ins = format!("TXTPP#include {}{eol}", rel_path(parent_rel(&paths[*i]), &t));
                     let new = format!("{}{}{}", &text[..at], ins, &text[at..]);
                     p.set_file(&paths[*i], B(new.into_bytes()));
+                }
+            }
+        }
+    }
+    if o.decoys {
+        // a temp target `sub\\t.tmp` is a file name; `sub/t.tmp` may exist as somebody else's file
+        let a = crate::spec::analyze(&p);
+        for s in &a.sources {
+            for t in &s.temps {
+                if let Some((head, rest)) = names::file_name(t).split_once('\\') {
+                    let d = join_rel(parent_rel(t), head).unwrap_or_default();
+                    if DIRS.contains(&d.as_str()) && rng.chance(1, 2) {
+                        let decoy = format!("{d}/{rest}");
+                        if p.file(&decoy).is_none() && !a.gen_all().contains(&decoy) {
+                            p.add_file(&decoy, B::s("somebody else's file\n"));
+                        }
+                    }
+                }
+            }
+        }
+    }
+    if o.sized && rng.chance(1, 8) {
+        // a directive marker that lies across a multiple of 8192 in its source (readers work in
+        // 8 KiB pieces): padding lines go in after the first line
+        let a = crate::spec::analyze(&p);
+        if a.n() > 0 {
+            let s = &a.sources[rng.below(a.n())];
+            if let Some(d) = p.file(&s.path).cloned() {
+                let text = d.lossy();
+                let marks: Vec<usize> = text.match_indices("TXTPP#").map(|(i, _)| i).collect();
+                let first_nl = text.find('\n');
+                if let (false, Some(nl)) = (marks.is_empty(), first_nl) {
+                    let m = *rng.pick(&marks);
+                    if m > nl {
+                        let eol = crate::spec::line_ending(&text);
+                        // the marker (6 bytes) plus the directive name start inside the last bytes
+                        // of a piece: offset of `T` is 8192*j - r
+                        let r = rng.range(1, 10);
+                        let j = rng.range(1, 3);
+                        let want = 8192 * j - r;
+                        if want > m + 2 * eol.len() + 8 {
+                            let mut need = want - m;
+                            let mut pad = String::new();
+                            // whole lines of at most 80 characters, the last one fits exactly
+                            while need > 0 {
+                                let line_len = if need > 90 + eol.len() { 80 } else { need - eol.len().min(need) };
+                                if need < eol.len() + 1 {
+                                    break;
+                                }
+                                pad.push_str(&"p".repeat(line_len));
+                                pad.push_str(eol);
+                                need -= line_len + eol.len();
+                            }
+                            if need == 0 {
+                                let new = format!("{}{}{}", &text[..nl + 1], pad, &text[nl + 1..]);
+                                p.set_file(&s.path, B(new.into_bytes()));
+                            }
+                        }
+                    }
                 }
             }
         }
@@ -527,6 +600,8 @@ fn gen_free_element(
                 "printf ''",
                 // not valid UTF-8: txtpp decodes command output lossily
                 "printf 'bad\\377byte\\n'",
+                // a command that reads its standard input (txtpp gives it /dev/null)
+                "cat; printf 'nothing on stdin\\n'",
                 // more on stderr than a pipe holds, while stdout is still open
                 "head -c 150000 /dev/zero | tr '\\0' 'e' >&2; printf 'after the flood\\n'",
             ]);
